@@ -72,7 +72,7 @@ def _prune_cache(keep_prefixes):
     try:
         ents = sorted(glob.glob(os.path.join(CACHE, '*.json')), key=os.path.getmtime)
         ents = [e for e in ents if not any(os.path.basename(e).startswith(p) for p in keep_prefixes)]
-        for e in ents[:-12]:
+        for e in ents[:-60]:
             os.remove(e)
     except OSError:
         pass
